@@ -604,7 +604,11 @@ func (s unicodeString) index(substr String, start int) int {
 	} else {
 		ss = a.utf16()
 	}
-	idx := utf16Index(s[min(1+start, len(s)):], ss)
+	if start > s.Length() {
+		// nothing, not even the empty string, occurs beyond the end (StringIndexOf: fromIndex > len)
+		return -1
+	}
+	idx := utf16Index(s[1+start:], ss)
 	if idx != -1 {
 		return idx + start
 	}
